@@ -61,10 +61,10 @@ CHECKS = {
         "technique": "function contracts: Kani full-domain contract harnesses per tuple arity and assembler case + Verus structural-induction lemma",
     },
     "C01": {
-        "level_text": "Bounded in the number of patterns of the called method (every other dimension - verdict vector, counter values, global index, fallback mode - fully symbolic): the first-match scan is an iterator chain out of Verus's reach, so its contract is checked by Kani per list length up to a stated bound and reported as bounded. Proof-level parts: counter frame/fetch_add contract, assembly append contract, lemmas over the contracts (all list lengths, all histories).",
+        "level_text": "Proof for all pattern-list lengths: the verbatim first-match scan of DynCtx::match_call_pattern is verified by Verus against the statement (earliest-declared non-rejecting pattern answers; None when all reject), with the std contract of `iter().enumerate().filter_map(f).next()` assumed (as binary_search_by is) and cross-checked by bounded Kani twins on the compiled std; eval_dyn (selection -> responder, unmentioned/unmatched fall-through) and MockAssembler::push/finish (append in clause order, other methods untouched) are verified for all states; counter frame / fetch_add by Kani over the full domain; history lemmas over the contracts.",
         "design_ref": "DESIGN.md §4 C01",
-        "level_note": "Deciding step for the scan is bounded (patterns <= 3 quick / 5 thorough). Trusted: BTreeMap::get isolation between methods, Kani/CBMC, Verus/Z3.",
-        "technique": "function contracts: bounded Kani contract harnesses on match_call_pattern/eval_dyn + full-domain Kani contracts on counter/assembler + Verus lemmas",
+        "level_note": "Trusted: std iterator-adapter contract (abstraction point), BTreeMap get/entry contracts (stand-in), the matcher closure is an uninterpreted verdict function; Kani/CBMC, Verus/Z3. Bounded Kani twins (patterns <= 3 quick / 5 thorough) additionally check counters and the global index are not modified.",
+        "technique": "function contracts: Verus requires/ensures on the extracted match_call_pattern / eval_dyn / push / finish + Kani contract harnesses (counter full-domain; bounded twins) + Verus lemmas",
     },
     "C09": {
         "level_text": "Proof for all instance states and environments (flags, strong count, thread ids, recorded reasons, pattern counts): function contracts on the extracted lifecycle functions with panic sites as precondition-carrying stubs, plus lemmas. Partial: real threads, Arc counting and helper clones are trusted/abstracted.",
@@ -85,7 +85,7 @@ CHECKS = {
         "technique": "function contracts with ghost state: Verus on extracted teardown / induce_panic / handle_error + bounded Kani harness",
     },
     "C04": {
-        "level_text": "Proof for the range assignment (all indices, counts, modes) and for the partition/history lemmas over the contracts (all clause lists, all histories); the lookup scan and the ordered arm of match_call_pattern are verified per list length up to a stated bound (bounded, reported separately).",
+        "level_text": "Proof for all inputs and all list lengths: range assignment (new_call_pattern, Verus + Kani full domain), partition / owner lemmas, the ordered lookup find_call_pattern_for_call_order and the ordered arm of match_call_pattern (Verus on the verbatim functions, std iterator contract assumed, matcher as an uninterpreted verdict). That the global index is bumped by exactly one per ordered call is interior mutability and is checked by the bounded Kani twins only.",
         "design_ref": "DESIGN.md §4 C04",
         "level_note": "Trusted: Verus/Z3, Kani/CBMC; harnesses needing a SharedState build the no_std+spin-lock feature set (Kani ICE on std::thread::current); the functions under contract contain no cfg.",
         "technique": "function contracts: Kani contract harnesses (range assignment full-domain; scans bounded) + Verus induction lemmas over the contracts",
